@@ -1,4 +1,4 @@
-//@@ unit props=C03,C06,C10,C19
+//@@ unit props=C03,C06,C10,C19 rlimit=150
 // Unit xlsbrec: XLSB record framing (src/xlsb/mod.rs RecordIter), wide strings, cell records (src/xlsb/cells_reader.rs).
 #![allow(unused_imports, dead_code, unused_variables, unused_mut, unused_assignments)]
 #![feature(allocator_api)]
@@ -270,11 +270,11 @@ impl<'a> RecordIter<'a> {
                 stopped ==> !cont(b),
             ensures
                 stopped || n == 4,
-//@@ before /if \(b & /
+//@@ before /if [^{]*\{\s*break;/
             proof { lemma_bits(b); }
 //@@ before /break;/
                 proof { stopped = true; }
-//@@ before /b = self\.read_u8\(\)\?;/#1of2
+//@@ before /b = self\.read_u8/#1of2
             proof { assert(n == i); assert(vhdr_from(s0, (n - 1) as nat, 4) == vhdr_from(s0, n, 4)); lemma_vhdr_from_lb(s0, n, 4);
                 assert(self.rem().len() == s0.len() - n);
                 assert(self.rem().len() == 0 ==> !vcomplete(s0, 4)); }
@@ -292,7 +292,7 @@ impl<'a> RecordIter<'a> {
             }
 //@@ after /len \+= [^;]*;/
             proof { n = n + 1; }
-//@@ before /if buf\.len\(\) < len/
+//@@ before /if buf\.len\(\)/
         proof {
             lemma_pow128();
             assert(n == vhdr(s0, 4));
@@ -329,7 +329,7 @@ impl<'a> RecordIter<'a> {
         let ghost mut prev = self.rem();
 //@@ before /let typ = /
             let ghost h = self.rem().len();
-//@@ before /if typ == record_type/
+//@@ before /if typ /
             proof {
                 lemma_rec_read(cur);
                 lemma_skip_n_step(s0, k);
@@ -532,7 +532,7 @@ pub open spec fn berr(e: u8) -> Option<CellErrorType> {
 pub open spec fn rk_x100(raw: int) -> bool { raw % 2 == 1 }
 pub open spec fn rk_is_int(raw: int) -> bool { (raw / 2) % 2 == 1 }
 pub open spec fn rk_num30(raw: int) -> int { raw / 4 }
-pub open spec fn rk_int(raw: int) -> int { if rk_num30(raw) >= 0x2000_0000 { rk_num30(raw) - 0x4000_0000 } else { rk_num30(raw) } }
+pub open spec fn rk_int(raw: int) -> int { signed(rk_num30(raw), 30) }   // two's complement 30-bit: negative values stay negative
 pub open spec fn rk_float_bits(raw: int) -> int { rk_num30(raw) * 0x4_0000_0000 }
 
 pub open spec fn signed32(v: int) -> int { if v >= 0x8000_0000 { v - 0x1_0000_0000 } else { v } }
@@ -552,6 +552,7 @@ proof fn lemma_rk(p: Seq<u8>, q: Seq<u8>)
         -0x2000_0000 <= rk_int(le32(p.subrange(8, 12))) < 0x2000_0000,
 {
     let b = p[8];
+    vstd::arithmetic::power2::lemma2_to64();
     assert(((b & 1) != 0) == (b % 2 == 1)) by (bit_vector);
     assert(((b & 2) != 0) == ((b / 2) % 2 == 1)) by (bit_vector);
     assert((b & 0xFC) == b - b % 4) by (bit_vector);
@@ -762,11 +763,11 @@ let verif_out; loop
                     && cell_val_ok(sc->typ, sc->payload, self.formats@, self.strings@, self.is_1904, verif_out) }),
                 scan(s0, row0) is Cell || scan(s0, row0) is Malformed,
             decreases self.iter.rem().len(),
-//@@ before /if is_int \{/
+//@@ before /if is_int/
                     proof { if p.len() >= 12 { lemma_rk(p, self.buf@); } }
-//@@ after /let v = \(read_i32[^;]*;/
+//@@ after /if is_int \{\s*let v = [^;]*;/
                         proof { if p.len() >= 12 { lemma_shr2(signed32(le32(self.buf@.subrange(8, 12))) as i32); } }
-//@@ before /let v = read_f64\(&v\);/
+//@@ before /let v = read_f64\(&v/
                         proof {
                             if p.len() >= 12 {
                                 let q = self.buf@.subrange(8, 12);
@@ -775,13 +776,35 @@ let verif_out; loop
                                 assert(le64(v@) == 0x1_0000_0000 * le32(q));
                             }
                         }
-//@@ before /self\.buf\.clear\(\)/
+//@@ before /DataRef::Int\(/
+                            proof {
+                                if p.len() >= 12 {
+                                    //# C03.rk_int_part
+                                    assert(v as int == rk_int(le32(p.subrange(8, 12))));
+                                }
+                            }
+//@@ after /let v = read_f64\(&v[^;]*;/
+                        proof {
+                            if p.len() >= 12 {
+                                //# C03.rk_float_part
+                                assert(v == f64_of_bits(rk_float_bits(le32(p.subrange(8, 12)))));
+                            }
+                        }
+//@@ after /let v = if d100 [^;]*;/
+                        proof {
+                            if p.len() >= 12 {
+                                let fb = f64_of_bits(rk_float_bits(le32(p.subrange(8, 12))));
+                                //# C03.rk_float_x100
+                                assert(v == (if d100 { fdiv(fb, 100.0f64) } else { fb }));
+                            }
+                        }
+//@@ after /let value = loop \{/
             let ghost cur = self.iter.rem();
             let ghost row_h = self.row;
-//@@ before /let value = match self\.typ/
+            proof { lemma_scan_step(cur, row_h); axiom_f64_div(); }
+//@@ before /let value = match /
             proof {
                 lemma_rec_read(cur);
-                lemma_scan_step(cur, row_h);
                 assert(self.buf@ =~= rec_payload(cur));
                 assert(self.typ as int == rec_typ(cur));
                 assert(self.iter.rem() == rec_rest(cur));
